@@ -207,6 +207,10 @@ func hostileSession(rng *rand.Rand, n int, dotu bool) [][]byte {
 			m.Type, m.Fid, m.Name, m.Mode = wire.Tcreate, pick(), names[rng.Intn(len(names))], uint8(rng.Intn(4))
 			m.Perm = []uint32{0644, 0x80000000 | 0755, 0x02000000 | 0777, 0x01000000, 0x00800000, 0x00200000, 0xFFFFFFFF}[rng.Intn(7)]
 			m.Ext = names[rng.Intn(len(names))]
+			if rng.Intn(2) == 0 {
+				// the extension of a hard link is a fid number
+				m.Ext = []string{"0", "1", "2", "3", "7", "99", "4294967295", "18446744073709551616", "-1"}[rng.Intn(9)]
+			}
 		case 5, 6:
 			m.Type, m.Fid, m.Offset, m.Count = wire.Tread, pick(), u64[rng.Intn(len(u64))], u32[rng.Intn(len(u32))]
 			if rng.Intn(2) == 0 {
@@ -304,6 +308,28 @@ func (h *hostileServer) structured(ch *ConnH, rng *rand.Rand, ladder bool, j int
 		msizes := []uint32{0, 24, 25, 47, 64, 256, 8192, 9000, 0xFFFFFFFF}
 		if m := msizes[j%len(msizes)]; m != 0 {
 			version(m)
+		}
+		if j%3 == 2 {
+			// create grid: every kind of Tcreate with every kind of name and extension, each through a fresh fid on the root
+			perms := []uint32{0644, 0x80000000 | 0755, 0x02000000 | 0777, 0x01000000 | 0644, 0x00800000 | 0644, 0x00200000 | 0644, 0x00100000 | 0644}
+			cnames := []string{"n", "", "..", "a/b", "f"}
+			exts := []string{"", "x", "../x", "0", "1", "3", "7", "99", "4294967295", "-1", "18446744073709551616", "b 1 2", "c 300 400"}
+			nf := uint32(100)
+			for _, pm := range perms {
+				for _, cn := range cnames {
+					for _, ex := range exts {
+						if pm&0x7F000000 == 0 && ex != "" {
+							continue // plain files and directories take no extension
+						}
+						nf++
+						send(&wire.Msg{Type: wire.Twalk, Fid: 1, Newfid: nf})
+						send(&wire.Msg{Type: wire.Tcreate, Fid: nf, Name: cn, Perm: pm, Mode: uint8(rng.Intn(3)), Ext: ex})
+						send(&wire.Msg{Type: wire.Tclunk, Fid: nf})
+					}
+				}
+			}
+			h.drain(ch)
+			return fmt.Sprintf("create grid session (msize %d)", eff)
 		}
 		fid := fids[(j/len(msizes))%len(fids)]
 		counts := []uint32{0, 1, eff - 25, eff - 24, eff - 23, eff - 1, eff, eff + 1, 1<<31 - 1, 1 << 31, 0xFFFFFFE7, 0xFFFFFFE8, 0xFFFFFFE9,
@@ -416,6 +442,10 @@ func TestHostile(t *testing.T) {
 						continue
 					}
 					out.Begin(id)
+					if useUfs {
+						// earlier cases may have removed or replaced it
+						_ = os.WriteFile(filepath.Join(root, "f"), []byte("hello world"), 0o644)
+					}
 					crng := rand.New(rand.NewSource(seed*1_000_003 + int64(i)))
 					var desc string
 					ch := h.newConn()
@@ -444,6 +474,7 @@ func TestHostile(t *testing.T) {
 							h.rpc(ch, &wire.Msg{Type: wire.Twalk, Fid: 1, Newfid: 2, Wname: []string{"d"}}, dotu)
 							h.rpc(ch, &wire.Msg{Type: wire.Topen, Fid: 2, Mode: 0}, dotu)
 							h.rpc(ch, &wire.Msg{Type: wire.Twalk, Fid: 1, Newfid: 3, Wname: []string{"f"}}, dotu)
+							h.rpc(ch, &wire.Msg{Type: wire.Twalk, Fid: 1, Newfid: 7, Wname: []string{"f"}}, dotu) // a second fid on the same file
 							if crng.Intn(2) == 0 {
 								// the server snapshots the listing at offset 0
 								h.rpc(ch, &wire.Msg{Type: wire.Tread, Fid: 2, Offset: 0, Count: []uint32{8168, 200, 0}[crng.Intn(3)]}, dotu)
